@@ -19,7 +19,9 @@ RULE = ("cases: (a) signing: secret key from seckey_any (about 15 % invalid), me
         "(R.x in [n,p), next to n, 1, next to p-n; s at the half-order boundaries, 1, n-1), boundary (r,s) pairs, each followed by 0..2 mutations "
         "(bit flips, r/s = 0, swap, negated / other key, other message, message +- n, s -> n-s, +n re-encodings); oracle = pyref.ecdsa.verify (equation and 1 <= s <= n/2), "
         "normalize, DER round trip of the object; all four recovery ids against pyref.ecdsa.recover. "
-        "non-trivial = msg >= n, or s within 1 of a half-order boundary, or R.x >= n, or invalid key, or failing / retrying nonce source, or any mutation, or a successful recovery with recid >= 2")
+        "LIMB-PREFIX classes: s (and r, msg, key, nonces, R.x) equal to a constant c in {n/2, n, p, p-n} on the top 32k bits (k = 1..7) and differing in a lower limb (0 / all ones / random / c's limb +-1), "
+        "used for s of constructed VALID signatures on either side of the half order; the int64 (8x32 scalar, 10x26 field) and int128-struct builds run a limb-prefix-heavy share in the quick tier. "
+        "non-trivial = msg >= n, or s within 1 of a half-order boundary, or s sharing >= 4 top limbs with n/2, or R.x >= n, or invalid key, or failing / retrying nonce source, or any mutation, or a successful recovery with recid >= 2")
 ASSUMPTIONS = ["pyref.ecdsa / pyref.rfc6979 / pyref.ec are correct (validated against the published RFC 6979 secp256k1 vectors and curve identities in pyref.selftest)",
                "public keys handed to verify are objects made by the library's strict parser from the reference point",
                "nonce callbacks return 0 or 1 only (other return values are not documented)"]
@@ -483,12 +485,17 @@ _VERIFY_COVER = ["Rx>=n:accept", "s=half:accept", "s=half+1:reject", "msg>=n", "
                  "s~half:high:eq_holds", "s~half:low:eq_holds", "s~half/k4:high:reject", "s~half/k5:high:reject", "s~half/k6:high:reject", "s~half/k7:high:reject",
                  "s~half/k4:low:accept", "s~half/k5:low:accept", "s~half/k6:low:accept", "s~half/k7:low:accept", "r~p-n"]
 # The property quantifies over build configurations: the 8x32 / 10x26 (int64) and int128-struct builds run a smaller, limb-prefix-heavy share in the quick tier already.
+# The sanitizer build has its own, smaller tests with few long shards: a vsan worker costs ~25 CPU-s before its first case and ~10x per case (ASan-preloaded interpreter).
+PRODONLY = {"quick": ["prod"], "thorough": ["prod"]}
+SAN = {"quick": ["vsan"], "thorough": ["vsan"]}
+_CORE_VERIFY = ["Rx>=n:accept", "s=half:accept", "s=half+1:reject", "rec2_ok", "accept", "reject", "s~half:high:eq_holds", "s~half:low:eq_holds"]
+_LIMB_VERIFY = ["s~half/k4:high:reject", "s~half/k5:high:reject", "s~half/k6:high:reject", "s~half/k7:high:reject",
+                "s~half/k4:low:accept", "s~half/k5:low:accept", "s~half/k6:low:accept", "s~half/k7:low:accept"]
 TESTS = [
-    Test("sign", sign_case, run_sign, quick=4000, thorough=60000, cfgs=BASE, must_cover=_SIGN_COVER),
-    Test("verify", verify_case, run_verify, quick=6000, thorough=100000, cfgs=BASE, must_cover=_VERIFY_COVER),
+    Test("sign", sign_case, run_sign, quick=4000, thorough=60000, cfgs=PRODONLY, must_cover=_SIGN_COVER),
+    Test("verify", verify_case, run_verify, quick=6000, thorough=100000, cfgs=PRODONLY, must_cover=_VERIFY_COVER),
+    Test("sign_san", sign_case, run_sign, quick=600, thorough=20000, cfgs=SAN, max_workers=2, must_cover=["msg>=n", "key_invalid", "retried", "sign_ok", "sign_fail"]),
+    Test("verify_san", verify_case_cfg, run_verify, quick=900, thorough=30000, cfgs=SAN, max_workers=6, must_cover=_CORE_VERIFY),
     Test("sign_cfg", sign_case, run_sign, quick=500, thorough=40000, cfgs=OTHER, must_cover=["msg>=n", "key_invalid", "retried", "sign_ok", "sign_fail", "key~n:valid", "msg~n"]),
-    Test("verify_cfg", verify_case_cfg, run_verify, quick=1500, thorough=60000, cfgs=OTHER,
-         must_cover=["Rx>=n:accept", "s=half:accept", "s=half+1:reject", "rec2_ok", "accept", "reject", "s~half:high:eq_holds", "s~half:low:eq_holds",
-                     "s~half/k4:high:reject", "s~half/k5:high:reject", "s~half/k6:high:reject", "s~half/k7:high:reject",
-                     "s~half/k4:low:accept", "s~half/k5:low:accept", "s~half/k6:low:accept", "s~half/k7:low:accept"]),
+    Test("verify_cfg", verify_case_cfg, run_verify, quick=1500, thorough=60000, cfgs=OTHER, must_cover=_CORE_VERIFY + _LIMB_VERIFY),
 ]
